@@ -305,6 +305,10 @@ class SymExec:
         if name.startswith("core::option::Option::"):
             if m == "map_or":
                 return ("map_or", args[0], args[1], self.closure_pred(args[2], depth))
+            if m == "is_some_and":
+                return ("map_or", args[0], ("const", 0), self.closure_pred(args[1], depth))
+            if m == "is_none_or":
+                return ("map_or", args[0], ("const", 1), self.closure_pred(args[1], depth))
             if m == "is_some":
                 return ("is_some", args[0])
             if m == "is_none":
